@@ -489,3 +489,7 @@ Definition run_C41 (inp : list Z) : list Z :=
   let op := nz 0 inp in
   if op =? 0 then run_D (skipn 1 inp) else if op =? 1 then run_S (skipn 1 inp) else run_T (nz 1 inp).
 Definition zlist_eqb (a b : list Z) : bool := list_eqb a b.
+
+(* the harness reports a panic without its site: all model panics compare as [-1] *)
+Definition canon_panic (l : list Z) : list Z :=
+  match l with [x] => if x <=? -1000 then [-1] else l | _ => l end.
